@@ -1,5 +1,6 @@
 import NessaiVerif.Proofs.Flow
 import NessaiVerif.Proofs.FlowReal
+import NessaiVerif.Proofs.FlowTri
 import Mathlib.Tactic.Linarith
 /-
 C08 — flow and proposal densities are consistent with their samples.
@@ -9,10 +10,13 @@ PARTIAL proof.  What is proved: the log-density bookkeeping of nessai's wrapper 
 point exactly the density the same layer computes forwards at that point, for every lawful transform
 (inverse pair with opposite log-Jacobians), for any point/latent types and any additive commutative group of
 log-densities; compositions (`CompositeTransform`) of lawful layers are lawful; affine coupling layers with
-ARBITRARY conditioner functions, elementwise affine layers and permutations are lawful.
+ARBITRARY conditioner functions, masked affine AUTOREGRESSIVE layers (MAF / MADE) in every dimension with arbitrary
+conditioners of the strict prefix and the literal sweep-loop inverse, triangular affine maps and the LU linear layer,
+elementwise affine layers and permutations are lawful — hence RealNVP stacks (coupling + permutation / LU + batch norm in
+eval mode / actnorm) and MAF stacks (autoregressive + permutation + batch norm) of any depth.
 NOT proved: that the density integrates to one, that `Σ log|s|` is the log-determinant of the derivative
-(calculus), lawfulness of glasflow's LU/SVD/spline/MADE layers and all floating-point numerics — the harness
-checks those numerically on generated points.
+(calculus), lawfulness of glasflow's rational-quadratic spline and SVD (Householder) layers, batch norm in training mode,
+and all floating-point numerics — the harness checks those numerically on generated points.
 -/
 namespace NessaiVerif.C08
 open NessaiVerif.Flow
@@ -72,6 +76,87 @@ theorem permutation_lawful [AddCommGroup L] {n : Nat} (σ σinv : Fin n → Fin 
 example : Lawful (permutation (K := ℚ) (L := ℚ) (n := 2) Fin.rev Fin.rev) :=
   permutation_lawful _ _ (fun i => Fin.rev_rev i) (fun i => Fin.rev_rev i)
 
+/-- **Masked affine autoregressive layer (MAF / MADE), every dimension.**  `y i = x i · s i(x) + t i(x)` where `s i`,
+`t i` are arbitrary functions of the strict prefix `x 0 … x (i-1)` and `s i ≠ 0`: the one-pass forward and the literal
+inverse loop of `AutoregressiveTransform.inverse` (start from zeros, `n` sweeps `x ← (y - t(x)) / s(x)`, log|det| from the
+last sweep's parameters) are mutual inverses with opposite log-Jacobians `± Σ lg (s i)`. -/
+theorem autoregressive_lawful [Field K] [AddCommGroup L] {n : Nat} (lg : K → L) (s t : Fin n → (Fin n → K) → K)
+    (hs : PrefixDep s) (ht : PrefixDep t) (hne : ∀ i x, s i x ≠ 0) : Lawful (autoregressive lg s t) :=
+  autoregressive_lawful' lg s t hs ht hne
+
+/-- a 3-d autoregressive layer with genuinely point-dependent conditioners -/
+def exARs : Fin 3 → (Fin 3 → ℚ) → ℚ := fun i x => if i.val = 0 then 2 else if i.val = 1 then x 0 * x 0 + 1 else 3
+/-- shifts of the example layer -/
+def exARt : Fin 3 → (Fin 3 → ℚ) → ℚ := fun i x => if i.val = 0 then 1 else if i.val = 1 then x 0 else x 0 * x 1
+
+example : Lawful (autoregressive (L := ℚ) (fun a => a) exARs exARt) := by
+  refine autoregressive_lawful _ _ _ ?_ ?_ ?_
+  · intro i x x' h
+    fin_cases i <;> simp [exARs]
+    rw [h 0 (by simp)]
+  · intro i x x' h
+    fin_cases i <;> simp [exARt]
+    · rw [h 0 (by simp)]
+    · rw [h 0 (by simp), h 1 (by simp)]
+  · intro i x
+    fin_cases i <;> simp [exARs]
+    have := mul_self_nonneg (x 0); intro h0; linarith
+
+/-- the sweep loop really inverts: the example layer maps (1,2,3) to (3,5,11) and back -/
+example : ((autoregressive (L := ℚ) (fun a => a) exARs exARt).fwd ![1, 2, 3]).1 = ![3, 5, 11] ∧
+    ((autoregressive (L := ℚ) (fun a => a) exARs exARt).inv ![3, 5, 11]).1 = ![1, 2, 3] := by
+  constructor <;> (funext i; fin_cases i <;> simp [autoregressive, arStep, iterN, exARs, exARt] <;> norm_num)
+
+/-- the strict-prefix hypothesis is needed: a "conditioner" that looks at the feature it transforms gives a map the
+sweep loop does not invert -/
+theorem autoregressive_lawful_fails_without :
+    ¬ Lawful (autoregressive (K := ℚ) (L := ℚ) (n := 1) (fun a => a) (fun _ x => x 0 + 1) (fun _ _ => 0)) := by
+  intro h
+  have := congrArg (fun p => p.1 0) (h.1 (fun _ => 1))
+  simp [autoregressive, arStep, iterN] at this
+
+/-- Lower-triangular affine map `y = M x + b` (`M` with non-zero diagonal `d` and strict part `A`) is lawful with
+log-Jacobian `Σ lg (d i)`; it is the autoregressive layer with constant scales and affine shifts, and its inverse
+loop is forward substitution.  (`triLower_fwd_eq`: the forward map is the matrix product.) -/
+theorem triangular_lower_lawful [Field K] [AddCommGroup L] {n : Nat} (lg : K → L) (d : Fin n → K)
+    (A : Fin n → Fin n → K) (b : Fin n → K) (hd : ∀ i, d i ≠ 0) :
+    Lawful (triLower lg d A b) ∧
+    ∀ x i, ((triLower lg d A b).fwd x).1 i = (∑ j, lowerMat d A i j * x j) + b i :=
+  ⟨triLower_lawful' lg d A b hd, triLower_fwd_eq lg d A b⟩
+
+example : Lawful (triLower (K := ℚ) (L := ℚ) (n := 3) (fun a => a) (fun _ => 2) (fun i j => i.val + j.val) (fun _ => 1)) :=
+  (triangular_lower_lawful _ _ _ _ (fun _ => by norm_num)).1
+
+/-- Upper-triangular affine map (back substitution) is lawful and its forward map is the matrix product. -/
+theorem triangular_upper_lawful [Field K] [AddCommGroup L] {n : Nat} (lg : K → L) (d : Fin n → K)
+    (A : Fin n → Fin n → K) (b : Fin n → K) (hd : ∀ i, d i ≠ 0) :
+    Lawful (triUpper lg d A b) ∧
+    ∀ x i, ((triUpper lg d A b).fwd x).1 i = (∑ j, upperMat d A i j * x j) + b i :=
+  ⟨triUpper_lawful' lg d A b hd, triUpper_fwd_eq lg d A b⟩
+
+example : Lawful (triUpper (K := ℚ) (L := ℚ) (n := 3) (fun a => a) (fun _ => 2) (fun i j => i.val + j.val) (fun _ => 1)) :=
+  (triangular_upper_lawful _ _ _ _ (fun _ => by norm_num)).1
+
+/-- **LU linear layer** (`LULinear`): `y = L (U x) + b` with unit-lower-triangular `L` and upper-triangular `U` with
+non-zero diagonal `ud` is lawful with the log-Jacobian the code reports, `± Σ lg (ud i)`; the inverse is the two
+triangular solves. -/
+theorem lu_linear_lawful [Field K] [AddCommGroup L] {n : Nat} (lg : K → L) (Lo : Fin n → Fin n → K)
+    (ud : Fin n → K) (Up : Fin n → Fin n → K) (b : Fin n → K) (hud : ∀ i, ud i ≠ 0) :
+    Lawful (luLinear lg Lo ud Up b) ∧
+    ∀ x i, ((luLinear lg Lo ud Up b).fwd x).1 i
+      = (∑ j, lowerMat (fun _ => 1) Lo i j * (∑ k, upperMat ud Up j k * x k)) + b i :=
+  ⟨luLinear_lawful' lg Lo ud Up b hud, luLinear_fwd_eq lg Lo ud Up b⟩
+
+example : Lawful (luLinear (K := ℚ) (L := ℚ) (n := 2) (fun a => a) (fun _ _ => 5) (fun _ => 3) (fun _ _ => 7) (fun _ => 1)) :=
+  (lu_linear_lawful _ _ _ _ _ (fun _ => by norm_num)).1
+
+/-- a zero on the diagonal of `U` makes the layer singular -/
+theorem lu_linear_lawful_fails_without :
+    ¬ Lawful (luLinear (K := ℚ) (L := ℚ) (n := 1) (fun a => a) (fun _ _ => 0) (fun _ => 0) (fun _ _ => 0) (fun _ => 0)) := by
+  intro h
+  have := congrArg (fun p => p.1 0) (h.1 (fun _ => 1))
+  simp [luLinear, triUpper, triLower, autoregressive, Transform.comp, permutation, arStep, iterN, lowerRow, finRev] at this
+
 /-- Over ℝ with `lg = log|·|` the log-Jacobian a coupling layer reports is the logarithm of the absolute
 multiplicative volume factor `|∏_{masked} s i|` of the map (exact statement in the field, no rounding). -/
 theorem coupling_logJ_eq_log_volume_factor {n : Nat} (m : Fin n → Bool)
@@ -82,6 +167,19 @@ theorem coupling_logJ_eq_log_volume_factor {n : Nat} (m : Fin n → Bool)
 example : ((coupling (n := 1) Real.log (fun _ => true) (fun _ _ => 2) (fun _ _ => 0)).fwd (fun _ => 1)).2
     = Real.log |scaleProd (n := 1) (fun _ => true) (fun _ => (2 : ℝ))| :=
   coupling_logJ_eq_log_volume_factor _ _ _ (fun _ _ _ => by norm_num) _
+
+/-- Over ℝ the log-Jacobian of the autoregressive layer is `log |∏ s i|`, and that of the LU layer `log |∏ ud i|`
+(the multiplicative volume factors, exact in the field). -/
+theorem autoregressive_logJ_eq_log_volume_factor {n : Nat} (s t : Fin n → (Fin n → ℝ) → ℝ)
+    (hne : ∀ i x, s i x ≠ 0) (x : Fin n → ℝ) (Lo Up : Fin n → Fin n → ℝ) (ud b : Fin n → ℝ) (hud : ∀ i, ud i ≠ 0) :
+    ((autoregressive Real.log s t).fwd x).2 = Real.log |scaleProd (fun _ => true) (fun i => s i x)| ∧
+    ((luLinear Real.log Lo ud Up b).fwd x).2 = Real.log |scaleProd (fun _ => true) ud| :=
+  ⟨scaleLogSum_eq_log_scaleProd _ _ (fun i _ => hne i x), scaleLogSum_eq_log_scaleProd _ _ (fun i _ => hud i)⟩
+
+example : ((luLinear (n := 1) Real.log (fun _ _ => 0) (fun _ => 2) (fun _ _ => 0) (fun _ => 0)).fwd (fun _ => 1)).2
+    = Real.log |scaleProd (n := 1) (fun _ => true) (fun _ => (2 : ℝ))| :=
+  (autoregressive_logJ_eq_log_volume_factor (fun _ _ => 1) (fun _ _ => 0) (fun _ _ => one_ne_zero) _ _ _ _ _
+    (fun _ => by norm_num)).2
 
 /-! ## the density attached to a generated point equals the density evaluated at it -/
 
@@ -280,13 +378,127 @@ inductive Builtin [Field K] [AddCommGroup L] {n : Nat} (lg : K → L) : Transfor
   | affine (a b : Fin n → K) (ha : ∀ i, a i ≠ 0) : Builtin lg (affine lg a b)
   | permutation (σ σinv : Fin n → Fin n) (h1 : ∀ i, σ (σinv i) = i) (h2 : ∀ i, σinv (σ i) = i) :
       Builtin lg (permutation σ σinv)
+  | autoregressive (s t : Fin n → (Fin n → K) → K) (hs : PrefixDep s) (ht : PrefixDep t) (hne : ∀ i x, s i x ≠ 0) :
+      Builtin lg (autoregressive lg s t)
+  | lu (Lo : Fin n → Fin n → K) (ud : Fin n → K) (Up : Fin n → Fin n → K) (b : Fin n → K) (hud : ∀ i, ud i ≠ 0) :
+      Builtin lg (luLinear lg Lo ud Up b)
 
-/-- **End to end (partial).**  For a flow that is any stack of affine-coupling / elementwise-affine /
-permutation layers with arbitrary conditioners (RealNVP with `linear_transform ∈ {None, permutation}`, with or
-without batch norm / actnorm), any base density and any lawful reparameterisation, the density `FlowProposal`
-attaches to a generated physical point equals the density it computes forwards at that point, and forward after
-inverse returns the input.  Gap to the property: spline, MADE, LU and SVD layers are covered only through the
-lawfulness hypothesis of the general theorems; normalisation (∫ = 1) and floating point are not covered. -/
+/-- every built-in layer is lawful -/
+theorem builtin_lawful [Field K] [AddCommGroup L] {n : Nat} (lg : K → L)
+    (t : Transform (Fin n → K) (Fin n → K) L) (h : Builtin lg t) : Lawful t := by
+  cases h with
+  | coupling m s t hs => exact coupling_lawful lg m s t hs
+  | affine a b ha => exact affine_lawful lg a b ha
+  | permutation σ σinv h1 h2 => exact permutation_lawful σ σinv h1 h2
+  | autoregressive s t hs ht hne => exact autoregressive_lawful lg s t hs ht hne
+  | lu Lo ud Up b hud => exact (lu_linear_lawful lg Lo ud Up b hud).1
+
+example : Lawful (permutation (K := ℚ) (L := ℚ) (n := 2) Fin.rev Fin.rev) :=
+  builtin_lawful (fun a => a) _ (Builtin.permutation _ _ (fun i => Fin.rev_rev i) (fun i => Fin.rev_rev i))
+
+/-- one block of nessai's `RealNVP`: optional actnorm, optional linear transform (a permutation, optionally followed
+by an LU layer), the affine coupling, optional batch norm (eval mode) -/
+structure RealNVPBlock (n : Nat) (K : Type) where
+  actnorm : Option ((Fin n → K) × (Fin n → K))
+  perm : Option ((Fin n → Fin n) × (Fin n → Fin n))
+  lu : Option ((Fin n → Fin n → K) × (Fin n → K) × (Fin n → Fin n → K) × (Fin n → K))
+  mask : Fin n → Bool
+  s : (Fin n → K) → Fin n → K
+  t : (Fin n → K) → Fin n → K
+  batchnorm : Option ((Fin n → K) × (Fin n → K))
+
+/-- the layers of a RealNVP block, in the order the constructor appends them -/
+def RealNVPBlock.layers [Field K] [AddCommGroup L] {n : Nat} (lg : K → L) (B : RealNVPBlock n K) :
+    List (Transform (Fin n → K) (Fin n → K) L) :=
+  (B.actnorm.map fun p => affine lg p.1 p.2).toList ++ (B.perm.map fun p => permutation p.1 p.2).toList ++
+  (B.lu.map fun p => luLinear lg p.1 p.2.1 p.2.2.1 p.2.2.2).toList ++ [coupling lg B.mask B.s B.t] ++
+  (B.batchnorm.map fun p => affine lg p.1 p.2).toList
+
+/-- scales are non-zero and the permutation is one -/
+def RealNVPBlock.Valid [Field K] {n : Nat} (B : RealNVPBlock n K) : Prop :=
+  (∀ p, B.actnorm = some p → ∀ i, p.1 i ≠ 0) ∧
+  (∀ p, B.perm = some p → (∀ i, p.1 (p.2 i) = i) ∧ (∀ i, p.2 (p.1 i) = i)) ∧
+  (∀ p, B.lu = some p → ∀ i, p.2.1 i ≠ 0) ∧
+  (∀ c i, B.mask i = true → B.s c i ≠ 0) ∧
+  (∀ p, B.batchnorm = some p → ∀ i, p.1 i ≠ 0)
+
+/-- **RealNVP stacks of any depth are lawful** (coupling layers with arbitrary conditioners, `linear_transform` ∈
+{None, permutation, lu}, with or without actnorm / batch norm in eval mode; `pre_transform = batch_norm` is one more
+affine layer in front). -/
+theorem realnvp_stack_lawful [Field K] [AddCommGroup L] {n : Nat} (lg : K → L)
+    (pre : Option ((Fin n → K) × (Fin n → K))) (hpre : ∀ p, pre = some p → ∀ i, p.1 i ≠ 0)
+    (blocks : List (RealNVPBlock n K)) (hv : ∀ B ∈ blocks, B.Valid) :
+    Lawful (composite ((pre.map fun p => affine lg p.1 p.2).toList ++ blocks.flatMap (·.layers lg))) := by
+  apply forward_inverse
+  intro t ht
+  apply builtin_lawful lg
+  simp only [List.mem_append, Option.mem_toList, Option.map_eq_some_iff, List.mem_flatMap] at ht
+  rcases ht with ⟨p, hp, rfl⟩ | ⟨B, hB, ht⟩
+  · exact Builtin.affine _ _ (hpre p hp)
+  · obtain ⟨h1, h2, h3, h4, h5⟩ := hv B hB
+    simp only [RealNVPBlock.layers, List.mem_append, Option.mem_toList, Option.map_eq_some_iff, List.mem_singleton] at ht
+    rcases ht with (((⟨p, hp, rfl⟩ | ⟨p, hp, rfl⟩) | ⟨p, hp, rfl⟩) | rfl) | ⟨p, hp, rfl⟩
+    · exact Builtin.affine _ _ (h1 p hp)
+    · exact Builtin.permutation _ _ (h2 p hp).1 (h2 p hp).2
+    · exact Builtin.lu _ _ _ _ (h3 p hp)
+    · exact Builtin.coupling _ _ _ h4
+    · exact Builtin.affine _ _ (h5 p hp)
+
+example : (⟨none, some (Fin.rev, Fin.rev), some (fun _ _ => 5, fun _ => 3, fun _ _ => 7, fun _ => 1), fun i => i.val == 1,
+    fun c _ => c 0 * c 0 + 1, fun c _ => c 0, some (fun _ => 2, fun _ => 0)⟩ : RealNVPBlock 2 ℚ).Valid := by
+  refine ⟨by simp, ?_, ?_, ?_, ?_⟩
+  · intro p hp; cases hp; exact ⟨fun i => Fin.rev_rev i, fun i => Fin.rev_rev i⟩
+  · intro p hp; cases hp; intro i; norm_num
+  · intro c i _; have := mul_self_nonneg (c 0); intro h0; linarith
+  · intro p hp; cases hp; intro i; norm_num
+
+/-- one block of nessai's `MaskedAutoregressiveFlow`: a permutation (reverse or random), the masked affine
+autoregressive transform, optional batch norm (eval mode) -/
+structure MAFBlock (n : Nat) (K : Type) where
+  σ : Fin n → Fin n
+  σinv : Fin n → Fin n
+  s : Fin n → (Fin n → K) → K
+  t : Fin n → (Fin n → K) → K
+  batchnorm : Option ((Fin n → K) × (Fin n → K))
+
+/-- the layers of a MAF block, in the order the constructor appends them -/
+def MAFBlock.layers [Field K] [AddCommGroup L] {n : Nat} (lg : K → L) (B : MAFBlock n K) :
+    List (Transform (Fin n → K) (Fin n → K) L) :=
+  [permutation B.σ B.σinv, autoregressive lg B.s B.t] ++ (B.batchnorm.map fun p => affine lg p.1 p.2).toList
+
+/-- the permutation is one, the conditioners look at the strict prefix only, scales are non-zero -/
+def MAFBlock.Valid [Field K] {n : Nat} (B : MAFBlock n K) : Prop :=
+  (∀ i, B.σ (B.σinv i) = i) ∧ (∀ i, B.σinv (B.σ i) = i) ∧ PrefixDep B.s ∧ PrefixDep B.t ∧ (∀ i x, B.s i x ≠ 0) ∧
+  (∀ p, B.batchnorm = some p → ∀ i, p.1 i ≠ 0)
+
+/-- **MAF stacks of any depth are lawful** (permutation + masked affine autoregressive layer with arbitrary
+strict-prefix conditioners + optional batch norm in eval mode, repeated). -/
+theorem maf_stack_lawful [Field K] [AddCommGroup L] {n : Nat} (lg : K → L)
+    (blocks : List (MAFBlock n K)) (hv : ∀ B ∈ blocks, B.Valid) :
+    Lawful (composite (blocks.flatMap (·.layers lg))) := by
+  apply forward_inverse
+  intro t ht
+  apply builtin_lawful lg
+  simp only [List.mem_flatMap] at ht
+  obtain ⟨B, hB, ht⟩ := ht
+  obtain ⟨h1, h2, h3, h4, h5, h6⟩ := hv B hB
+  simp only [MAFBlock.layers, List.mem_append, List.mem_cons, List.not_mem_nil, or_false, Option.mem_toList,
+    Option.map_eq_some_iff] at ht
+  rcases ht with (rfl | rfl) | ⟨p, hp, rfl⟩
+  · exact Builtin.permutation _ _ h1 h2
+  · exact Builtin.autoregressive _ _ h3 h4 h5
+  · exact Builtin.affine _ _ (h6 p hp)
+
+example : (⟨Fin.rev, Fin.rev, fun _ _ => 2, fun _ _ => 1, none⟩ : MAFBlock 3 ℚ).Valid :=
+  ⟨fun i => Fin.rev_rev i, fun i => Fin.rev_rev i, fun _ _ _ _ => rfl, fun _ _ _ _ => rfl, fun _ _ => by norm_num, by simp⟩
+
+/-- **End to end (partial).**  For a flow that is any stack of affine-coupling / masked-autoregressive / LU /
+elementwise-affine / permutation layers with arbitrary conditioners (RealNVP with `linear_transform ∈ {None, permutation,
+lu}` and MAF, with or without batch norm / actnorm), any base density and any lawful reparameterisation, the density
+`FlowProposal` attaches to a generated physical point equals the density it computes forwards at that point, and forward
+after inverse returns the input.  Gap to the property: rational-quadratic spline and SVD (Householder) layers are covered
+only through the lawfulness hypothesis of the general theorems; normalisation (∫ = 1), batch norm in training mode and
+floating point are not covered. -/
 theorem builtin_stack_density_consistent_partial [Field K] [AddCommGroup L] {n : Nat} (lg : K → L)
     (ts : List (Transform (Fin n → K) (Fin n → K) L)) (hts : ∀ t ∈ ts, Builtin lg t)
     (base : (Fin n → K) → L) (R : Transform (Fin n → K) (Fin n → K) L) (hR : Lawful R)
@@ -294,21 +506,17 @@ theorem builtin_stack_density_consistent_partial [Field K] [AddCommGroup L] {n :
     Lawful (composite ts) ∧
     fpForwardPass ⟨composite ts, base⟩ R rescale (fpBackwardPass ⟨composite ts, base⟩ R none rescale z).1
       = (z, (fpBackwardPass ⟨composite ts, base⟩ R none rescale z).2) := by
-  have hl : Lawful (composite ts) := by
-    apply forward_inverse
-    intro t ht
-    cases hts t ht with
-    | coupling m s t hs => exact coupling_lawful lg m s t hs
-    | affine a b ha => exact affine_lawful lg a b ha
-    | permutation σ σinv h1 h2 => exact permutation_lawful σ σinv h1 h2
+  have hl : Lawful (composite ts) := forward_inverse ts (fun t ht => builtin_lawful lg t (hts t ht))
   exact ⟨hl, gen_density_eq_eval_density_flowproposal ⟨composite ts, base⟩ R hl hR rescale z⟩
 
 example : ∀ t ∈ [coupling (K := ℚ) (L := ℚ) (n := 2) (fun a => a) (fun i => i.val == 1)
-      (fun c _ => c 0 * c 0 + 1) (fun c _ => c 0), permutation Fin.rev Fin.rev], Builtin (fun a => a) t := by
+      (fun c _ => c 0 * c 0 + 1) (fun c _ => c 0), permutation Fin.rev Fin.rev,
+      luLinear (fun a => a) (fun _ _ => 5) (fun _ => 3) (fun _ _ => 7) (fun _ => 1)], Builtin (fun a => a) t := by
   intro t ht
   simp only [List.mem_cons, List.not_mem_nil, or_false] at ht
-  rcases ht with rfl | rfl
+  rcases ht with rfl | rfl | rfl
   · exact Builtin.coupling _ _ _ (fun c i _ => by have := mul_self_nonneg (c 0); intro h0; linarith)
   · exact Builtin.permutation _ _ (fun i => Fin.rev_rev i) (fun i => Fin.rev_rev i)
+  · exact Builtin.lu _ _ _ _ (fun _ => by norm_num)
 
 end NessaiVerif.C08
